@@ -598,6 +598,8 @@ def rejection(ck, thorough):
 
     import inspect
 
+    import foreign_objs
+
     rng = ck.rng
     # which revision of save() is this?  read off the source, not off its behaviour
     worder = "DumpsThenWrite" if "dumps(" in inspect.getsource(save) else "DumpIntoOpenFile"
@@ -632,6 +634,9 @@ def rejection(ck, thorough):
         ("config-object", DDMConfig(), "KOther"),
         ("statistic-object", Mean(), "KOther"),
         ("queue-object", CircularQueue(max_len=3), "KOther"),
+        ("foreign-object-of-a-class-named-BaseCallback", foreign_objs.BaseCallback(), "KOther"),
+        ("foreign-object-whose-base-is-named-BaseCallback", foreign_objs.MyCallback(), "KOther"),
+        ("foreign-object-whose-base-is-named-BaseDetector", foreign_objs.MyDetector(), "KOther"),
         ("detector", det, "KDetector"),
         ("batch-detector", fitted, "KDetector"),
         ("callback", det.callbacks[0], "KCallback"),
@@ -647,7 +652,7 @@ def rejection(ck, thorough):
         ("0", 0), ("HIGHEST", HIGHEST), ("True", True), ("False", False), ("np.int64(3)", np.int64(3)),
     ]
     ck.rule(
-        "rejection clause: 14 kinds of non-detector objects (incl. a detector CLASS, a config object, a list of detectors) and 4 detectors/callbacks x 22 protocol values "
+        "rejection clause: 17 kinds of non-detector objects (incl. a detector CLASS, a config object, a list of detectors, importable foreign objects whose classes are merely NAMED BaseCallback / BaseDetector) and 4 detectors/callbacks x 22 protocol values "
         "(-1, -2, HIGHEST+1, +-10^30, non-integral / integral / nan floats, str, None, list, numpy ints, bools), target path absent / holding previous content / in a missing directory"
     )
     cases, exprs = [], []
